@@ -184,33 +184,36 @@ package tendermint
 
 // ---- timeouts ---------------------------------------------------------------------------------------------
 //@ func (*stateMachine).onTimeoutPropose
-//@   props C12
+//@   props C12, C13
 //@   arith int
 //@   requires s != nil
 //@   modifies s.state.step, s.voteCounter
 //@   modifies maps
 //@   assigns calls_AddPrevote, arg_AddPrevote_prevote
 //@   ensures only_from_propose: calls_AddPrevote != old(calls_AddPrevote) ==> old(s.state.step) == types.StepPropose && old(s.state.height) == timeout.Height && old(s.state.round) == timeout.Round
-//@   ensures nil_vote: result != nil ==> len(result) == 2 && cast(result[1], *actions.BroadcastPrevote).ID == nil
+//@   ensures nil_vote: result != nil ==> len(result) == 2 && istype(result[1], *actions.BroadcastPrevote) && cast(result[1], *actions.BroadcastPrevote).ID == nil
+//@   ensures wal_first: result != nil ==> istype(result[0], *actions.WriteWAL)
 
 //@ func (*stateMachine).onTimeoutPrevote
-//@   props C12
+//@   props C12, C13
 //@   arith int
 //@   requires s != nil
 //@   modifies s.state.step, s.voteCounter
 //@   modifies maps
 //@   assigns calls_AddPrecommit, arg_AddPrecommit_precommit
 //@   ensures only_from_prevote: calls_AddPrecommit != old(calls_AddPrecommit) ==> old(s.state.step) == types.StepPrevote && old(s.state.height) == timeout.Height && old(s.state.round) == timeout.Round
-//@   ensures nil_vote: result != nil ==> len(result) == 2 && cast(result[1], *actions.BroadcastPrecommit).ID == nil
+//@   ensures nil_vote: result != nil ==> len(result) == 2 && istype(result[1], *actions.BroadcastPrecommit) && cast(result[1], *actions.BroadcastPrecommit).ID == nil
+//@   ensures wal_first: result != nil ==> istype(result[0], *actions.WriteWAL)
 
 //@ func (*stateMachine).onTimeoutPrecommit
-//@   props C12
+//@   props C12, C13
 //@   arith int
 //@   requires s != nil && timeout.Round < (1<<63) - 1
 //@   modifies s.state.round, s.state.step, s.state.timeoutPrevoteScheduled, s.state.lockedValueAndOrValidValueSet, s.state.timeoutPrecommitScheduled, s.voteCounter
 //@   modifies maps
 //@   assigns heightFresh
 //@   ensures next_round: result != nil ==> s.state.round == old(s.state.round) + 1
+//@   ensures wal_first: result != nil ==> len(result) == 2 && istype(result[0], *actions.WriteWAL)
 
 // ---- the rule dispatcher: every rule fires only under its "upon" condition --------------------------
 //@ func (*stateMachine).findProposal
@@ -226,3 +229,31 @@ package tendermint
 //@   assigns heightFresh, calls_AddPrevote, arg_AddPrevote_prevote, calls_AddPrecommit, arg_AddPrecommit_precommit
 //@   ensures one_prevote_at_most: calls_AddPrevote == old(calls_AddPrevote) || (calls_AddPrevote == old(calls_AddPrevote) + 1 && old(s.state.step) == types.StepPropose)
 //@   ensures one_precommit_at_most: calls_AddPrecommit == old(calls_AddPrecommit) || (calls_AddPrecommit == old(calls_AddPrecommit) + 1 && old(s.state.step) == types.StepPrevote)
+
+// ---- every input is logged before anything it causes: the first action of a batch is its WAL entry --
+//@ func (*stateMachine).processLoop
+//@   trusted
+//@   modifies *
+//@   modifies maps
+//@   ensures keeps_prefix: len(result) >= len(resultActions) && (forall j int :: 0 <= j && j < len(resultActions) ==> result[j] == old(resultActions[j]))
+
+//@ extern func github.com/NethermindEth/juno/consensus/types.Message.Header
+//@   ensures result != nil
+//@ func (*stateMachine).processMessage
+//@   props C13
+//@   arith int
+//@   requires s != nil && msg != nil
+//@   modifies *
+//@   modifies maps
+//@   ensures wal_first: len(result) >= 1 && istype(result[0], *actions.WriteWAL) && cast(result[0], *actions.WriteWAL).Entry == walEntry
+
+//@ func (*stateMachine).ProcessStart
+//@   props C13
+//@   arith int
+//@   requires s != nil
+//@   requires fresh_height: !s.isHeightStarted ==> heightFresh
+//@   modifies *
+//@   modifies maps
+//@   assigns heightFresh
+//@   ensures wal_first: result != nil ==> len(result) >= 1 && istype(result[0], *actions.WriteWAL)
+//@   ensures once: old(s.isHeightStarted) ==> result == nil
